@@ -30,6 +30,24 @@ CHECKS = {
         "State identity relies on hook verif_digest covering every future-relevant field; verdicts use only the public API. Histories deeper than the bound are not explored.",
         "DESIGN.md §3 C04",
     ),
+    "C09": (
+        "exhaustive enumeration of all programs of up to N lines over a DATA/READ/RESTORE line alphabet, in every order, under every history of a fixed set, executed on the real interpreter against the reference interpreter's DATA model",
+        "All programs of 1..4 (thorough 5) lines over 20 line bodies (DATA forms incl. DATA behind another statement and inside IF, READ into every type, RESTORE / RESTORE n, loops), under 9 histories (fresh, RUN twice, CLEAR, direct READs, RUN n, edit of a DATA line, interrupted run), are run and compared with the reference. Exhaustive within the bound.",
+        "Reference: flat constant list in source order; RESTORE n = first constant at or after line n; conversions as assignment.",
+        "DESIGN.md §3 C09",
+    ),
+    "C10": (
+        "exhaustive enumeration of definition family x calling context x argument tuple x perturbation, executed on the real interpreter against the reference interpreter (local parameter scope, call-time evaluation)",
+        "12 numeric and 3 string definition families, 9 calling contexts, all argument tuples of a small set and 7 perturbations (globals changed after DEF, call before DEF, wrong arity, undefined function, call from direct mode) are combined exhaustively; sentinels named like parameters are printed afterwards; DEF in direct mode and three runaway recursions (OUT OF MEMORY, session survives) included.",
+        "Line numbers of errors raised inside a function body are not compared (the manual does not attribute them).",
+        "DESIGN.md §3 C10",
+    ),
+    "C11": (
+        "exhaustive enumeration of print lists of a bounded grammar in sequences of up to three PRINT statements (optionally interleaved with INPUT, error, CLS, LIST, STOP, trace brackets, loops) against a reference cursor model, plus exhaustive / structured sweeps of number formatting",
+        "Every print list of up to 3 items over 20 items x 3 separators x 3 trailings, every pair and triple of shorter statements, each followed by a probe (POS, comma zone, TAB) are executed and compared with the cursor model; all 65536 Integers, every sign/exponent of f32 with 81 mantissa patterns (thorough: all 2^32 f32 values) and a structured f64 set are formatted and must read back exactly with the minimal digit count.",
+        "Reference refmodel/print.rs and the PRINT part of refmodel/interp.rs; positional vs E notation is not prescribed.",
+        "DESIGN.md §3 C11",
+    ),
     "C12": (
         "explicit-state breadth-first search over session prefixes (runs to completion / error / STOP / interrupted after k instructions, direct statements) for a family of programs, RUN and CLEAR/NEW+probes compared with a fresh interpreter",
         "For each of 12 programs every history up to 4 (quick) / 6 (thorough) actions is executed; every RUN must equal RUN in a fresh interpreter with the same listing and CLEAR / NEW followed by 9 probe lines must equal the probes in a fresh interpreter. Exhaustive within the depth bound and the program family.",
@@ -53,6 +71,12 @@ CHECKS = {
         "40 lines covering every statement kind and literal form plus every line of the small program space are re-spelled in all 1- and 2-deviation ways (case per token, blanks per gap, aliases ?, ', GO TO, GO SUB, LET, =<, =>, blanks inside two-character operators, lower-case exponent/radix letters); listing (blank-insensitive outside strings/remarks), parsed AST and run transcript must equal the canonical spelling's. Exhaustive within the bound.",
         "The lister keeps the user's blanks by design, so listings are compared with blanks outside strings and remarks removed; gluing is only generated where the property allows it.",
         "DESIGN.md §3 C16",
+    ),
+    "C17": (
+        "exhaustive enumeration of INPUT statement forms x all reply strings up to a bounded length, executed inside a loop on the real interpreter against the reference reply parser",
+        "25 INPUT statements x every reply of length <=4 (thorough 5) over a 12-symbol alphabet, plus hand-picked and over-long replies, inside FOR..NEXT with all targets printed: prompts, capitalisation flag, REDO FROM START, stored values and loop completion must equal the reference.",
+        "Reference refmodel/input.rs; values whose printed notation is not fixed are skipped.",
+        "DESIGN.md §3 C17",
     ),
     "C20": (
         "exhaustive enumeration of programs x single and pairwise layout transformations, transcripts compared up to reported line numbers",
